@@ -11,7 +11,7 @@
 
 /// Shadow of `std` used by `signal.rs`, `lib.rs` and `backoff.rs` through a
 /// feature-guarded `use crate::verif::std;` line.  Only `thread` and `time`
-/// are ever replaced by the verification model.
+/// (and `hint::spin_loop`) are ever replaced by the verification model.
 pub mod std {
     pub use ::std::*;
     pub mod thread {
@@ -19,6 +19,9 @@ pub mod std {
     }
     pub mod time {
         pub use ::std::time::*;
+    }
+    pub mod hint {
+        pub use ::std::hint::*;
     }
 }
 
@@ -40,6 +43,8 @@ pub const SITE_ABW_SLEEP: u16 = 13;
 pub const SITE_POLL_PENDING: u16 = 14;
 pub const SITE_POLL_EXISTS: u16 = 15;
 pub const SITE_NOW: u16 = 16;
+/// pure-delay back-off (`backoff::yield_now`): the model skips it
+pub const SITE_BACKOFF: u16 = 17;
 
 /// A scheduling point: the verification model may run other logical threads
 /// here.  No-op in this pass-through version.
